@@ -9,7 +9,16 @@ def P(scenarios, quick, thorough, rule, nontrivial, expect=None, real=None, stub
                 rule=rule, nontrivial=nontrivial, expect_probes=expect or nontrivial, real=real or REAL_NET, stubs=stubs or STUB_NET,
                 assumptions=assumptions or [], detcheck=detcheck)
 
+REAL_ENG = ["muxer", "protocol.Protocol engine (stateLoop/readLoop/recvLoop/sendLoop)", "repository state-map data", "CBOR decoding in readLoop"]
+STUB_ENG = STUB_NET + ["application (harness handler tasks)", "message contents (opaque tagged CBOR arrays, except tx-submission RequestTxIds)"]
+
 PROPS = {
+ "C10": P([("msg", 1)], 1500, 60000,
+          "one evaluation = one simulated run of two real protocol engines over real muxers over simnet exchanging 1-3 rounds of up to 30 messages per direction (sizes 12 B .. 3 MiB, 1-3 concurrent sender tasks, slow handlers, fragmentation, bounded socket buffer, stalls); distinct = distinct schedule hash; non-trivial = at least one message spanned several segments or several messages shared one segment",
+          ["msg.multi-segment-message", "msg.several-messages-in-one-segment"], real=REAL_ENG, stubs=STUB_ENG),
+ "C12": P([("conv", 3), ("conv-neg", 1)], 3000, 150000,
+          "one evaluation = one simulated run of a planned conforming conversation (random walk of an independent specification automaton, 2-32 messages, pipelined or lock-step client, replies from the handler or a task) between two real engines using one of 11 repository state maps, or of a forbidden first message; distinct = distinct schedule hash; non-trivial = the client pipelined its requests or a forbidden message was queued",
+          ["conv.pipelined", "convneg.chainsync-ntn", "convneg.blockfetch", "convneg.keepalive", "convneg.localstatequery", "convneg.txsubmission"], expect=["conv.pipelined", "conv.chainsync-ntn", "conv.txsubmission", "conv.localtxmonitor"], real=REAL_ENG, stubs=STUB_ENG),
  "C09": P([("mux", 3), ("mux-adv", 1)], 3000, 150000,
           "one evaluation = one simulated run (seeded schedule + fault tape) of two real muxers over simnet with 1-5 registrations, concurrent channel/Send senders and stalling receivers, or of one real muxer fed an offending frame by a raw peer; distinct = distinct schedule hash (sequence of task@site steps and select outcomes); non-trivial = at least one segment was delivered end-to-end or an offending frame was sent",
           ["mux.segment-delivered", "muxadv.zero", "muxadv.segm", "muxadv.wron"], expect=["mux.segment-delivered", "mux.frames-on-wire", "net.writer-blocked", "mux.connection-broken"]),
